@@ -39,6 +39,11 @@ type multiEnv struct {
 	chains map[string]*simnode.Chain
 	trace  []string
 	detail func() map[string]any
+	// optional monitors around every stepSeq
+	preStep  func(p *mPair)
+	postStep func(p *mPair, res *scen.StepResult)
+	// anyOwner: another pair's task may run inside the step (hook-driven interleaving)
+	anyOwner bool
 }
 
 // newMultiEnv boots a scenario and attaches a monitor to every pair.
@@ -137,13 +142,23 @@ func (me *multiEnv) stepSeq(p *mPair, others bool) *scen.StepResult {
 			}
 		}
 	}
+	if me.preStep != nil {
+		me.preStep(p)
+	}
 	res := me.env.Step(p.task)
 	me.c.Obs("steps", 1)
+	if me.postStep != nil {
+		me.postStep(p, res)
+	}
 	if res.Panic != "" {
 		fr := vk.TopShovelFrame(res.Panic)
 		me.c.Violate(me.kp+"panic:"+fr, merge(me.detail(), map[string]any{"panic": firstLines(res.Panic, 30)}), "Converge panicked in %s: %s", fr, firstLines(res.Panic, 1))
 	}
-	me.checkOwnership(res.Commits, p)
+	if me.anyOwner {
+		me.checkOwnership(res.Commits, nil)
+	} else {
+		me.checkOwnership(res.Commits, p)
+	}
 	me.trackFirst(p, res)
 	if others {
 		for _, q := range me.pairs {
